@@ -656,6 +656,10 @@ def gen_accounting_case(rng, tier, hostile=None, hft=None):
                          "maxNormalOrders": rng.choice([1, 2, 3, 6]),
                          "maxHighFrequencyOrders": rng.choice([1, 2, 3]),
                          "highFrequencySubmitRate": rng.choice([0.5, 1.0])})
+    if rng.random() < 0.08:
+        # a long session: the run crosses the 100-step storage and generation chunks
+        sessions[-1]["iterationSteps"] = rng.choice([101, 130, 205])
+        sessions[-1]["maxNormalOrders"] = 1
     cfg["simulation"]["sessions"] = sessions
     case = {"drive": "runner", "seed": rng.randrange(1 << 31), "config": cfg, "profile": "accounting"}
     if hostile:
@@ -724,6 +728,8 @@ def gen_probe(rng, cfg, session_index, total_steps, n_hooks=None, with_filters=T
             t = None
         elif r < 0.4:
             t = []
+        elif r < 0.47:
+            t = [0]
         elif r < 0.6:
             t = [rng.randrange(total_steps)]
         elif r < 0.8:
